@@ -215,12 +215,86 @@ impl Engine for IftFaultFree {
                 }
             }
         }
+        // selection on a "twin" font: IFTX repeats IFT's partial-invalidation entries under the same URIs
+        if let Some(tw) = twin_world(&t.plan.world, t.plan.hash_seed) {
+            let mut tp = t.plan.clone();
+            tp.world = tw;
+            let font = tp.world.base_font();
+            let model = tp.world.initial_model();
+            let mut defs = tp.defs.clone();
+            defs.extend(tp.probes.iter().cloned());
+            defs.push(Def::all());
+            let mut st = Stats::default();
+            let r = {
+                let mut s = Sim { plan: &tp, stats: &mut st, check_model: true };
+                let mut res = Ok(());
+                for d in &defs {
+                    res = s.check_twin_selection(&font, &model, d);
+                    if res.is_err() {
+                        break;
+                    }
+                }
+                res
+            };
+            merge(stats, st);
+            if let Err(v) = r {
+                return Verdict::Fail(v);
+            }
+        }
         let sig = plan_sig(&t.plan);
         Verdict::Pass { digest: out.digest, sig, nontrivial: !out.applied_uris.is_empty() }
     }
     fn shrink(&self, t: &IftTrace) -> Vec<IftTrace> {
         shrink_plan(&t.plan).into_iter().map(|plan| IftTrace { plan }).collect()
     }
+}
+
+/// A copy of the world whose IFTX root repeats the partial-invalidation entries of its IFT root (same
+/// template and ids, hence the same URIs) and adds one or two of its own.
+fn twin_world(w: &world::World, seed: u64) -> Option<world::World> {
+    let r0 = w.roots[0]?;
+    let v0 = &w.versions[r0];
+    if v0.table_format != 2 || !v0.entries.iter().any(|e| e.format == 2 && !e.ignored) {
+        return None;
+    }
+    let mut rng = Rng::new(seed ^ 0x7717);
+    let table_patch = v0.entries.iter().find(|e| e.format == 2).map(|e| e.patch)?;
+    let mut tw = w.clone();
+    let mut v1 = v0.clone();
+    for b in v1.compat.iter_mut() {
+        *b ^= 0x5a;
+    }
+    for e in v1.entries.iter_mut() {
+        if e.format != 2 {
+            e.ignored = true;
+        }
+    }
+    // in the IFT table keep everything but fully invalidating entries
+    for e in tw.versions[r0].entries.iter_mut() {
+        if e.format == 1 {
+            e.ignored = true;
+        }
+    }
+    let max_id = v1.entries.iter().filter_map(|e| if let world::EntryId::Num(n) = e.id { Some(n) } else { None }).max();
+    for k in 0..(1 + rng.below(2)) {
+        let mut e = v1.entries.iter().find(|e| e.format == 2).cloned()?;
+        e.ignored = false;
+        e.children.clear();
+        e.cps = (0..1 + rng.below(6)).map(|_| 0x100 + rng.below(w.n_glyphs as u64) as u32).collect();
+        e.cps.sort_unstable();
+        e.cps.dedup();
+        e.cp_mode = 1;
+        e.bias = 0;
+        e.id = match (&e.id, max_id) {
+            (world::EntryId::Num(_), Some(m)) => world::EntryId::Num(m + 1 + k as u32),
+            _ => world::EntryId::Str(format!("twin{k}").into_bytes()),
+        };
+        e.patch = table_patch;
+        v1.entries.push(e);
+    }
+    tw.versions.push(v1);
+    tw.roots[1] = Some(tw.versions.len() - 1);
+    Some(tw)
 }
 
 // ------------------------------------------------------------------ faulty worlds
